@@ -52,29 +52,48 @@ impl Visitor<Diagnostic> for RuleEnumerationValuesUnique {
         match &node.spec_init.spec {
             EnumeratedSpecificationKind::TypeName(_) => Ok(()),
             EnumeratedSpecificationKind::Values(spec) => {
-                let mut seen_values: HashSet<&Id> = HashSet::new();
-                for current in &spec.values {
-                    // TODO this needs to be updated - this doesn't do
-                    // a comparison that includes the type of the enumeration
-                    let seen = seen_values.get(&current.value);
-                    match seen {
-                        Some(first) => {
-                            self.diagnostics.push(
-                                Diagnostic::problem(
-                                    Problem::EnumTypeDeclDuplicateItem,
-                                    Label::span(first.span(), "First instance"),
-                                )
-                                .with_context_type("declaration", &node.type_name)
-                                .with_context_id("duplicate value", first)
-                                .with_secondary(Label::span(current.span(), "Duplicate value")),
-                            );
-                        }
-                        None => {
-                            seen_values.insert(&current.value);
-                        }
-                    }
-                }
+                self.check_values(&spec.values, Some(&node.type_name));
                 Ok(())
+            }
+        }
+    }
+
+    // The values of an enumeration that is declared with the variable
+    // (or structure element) rather than as a type of its own
+    fn visit_enumerated_values_initializer(
+        &mut self,
+        node: &EnumeratedValuesInitializer,
+    ) -> Result<(), Diagnostic> {
+        self.check_values(&node.values, None);
+        Ok(())
+    }
+}
+
+impl RuleEnumerationValuesUnique {
+    fn check_values(&mut self, values: &[EnumeratedValue], declaration: Option<&Type>) {
+        let mut seen_values: HashSet<&Id> = HashSet::new();
+        for current in values {
+            // TODO this needs to be updated - this doesn't do
+            // a comparison that includes the type of the enumeration
+            let seen = seen_values.get(&current.value);
+            match seen {
+                Some(first) => {
+                    let mut diagnostic = Diagnostic::problem(
+                        Problem::EnumTypeDeclDuplicateItem,
+                        Label::span(first.span(), "First instance"),
+                    );
+                    if let Some(declaration) = declaration {
+                        diagnostic = diagnostic.with_context_type("declaration", declaration);
+                    }
+                    self.diagnostics.push(
+                        diagnostic
+                            .with_context_id("duplicate value", first)
+                            .with_secondary(Label::span(current.span(), "Duplicate value")),
+                    );
+                }
+                None => {
+                    seen_values.insert(&current.value);
+                }
             }
         }
     }
